@@ -137,9 +137,12 @@ pub fn run(
         }
     }
 
+    // a round accepts one candidate per spur index, so the last round can overshoot k
+    let routes = accepted.into_iter().take(query.k).collect_vec();
+
     let result = SearchAlgorithmResult {
         trees: shortest.trees,
-        routes: accepted,
+        routes,
         iterations,
     };
     Ok(result)
